@@ -17,6 +17,7 @@ from .e1_srcmodel import dotted
 from .e2_eval import DictValue, is_unknown, need
 from .sem import unfn
 from . import c03_sem as X
+from . import c03_frf
 from .c03_sem import S, TRUE, FALSE, NONE, Sem3, explore, str_of, sym_of, rows_of
 
 SRS = "pyyeti/srs.py"
@@ -1151,6 +1152,7 @@ RULES = [
     ("C03-R6", r6_vrs, 12),
     ("C03-R7", r7_eqsine, 7),
     ("C03-R8", r8_peak_selectors, 7),
+    ("C03-R9", c03_frf.rule, 40),
 ]
 
 LEVEL = "other"
